@@ -8,18 +8,18 @@ Fixpoint dec_tbl (n : nat) (l : list N) : list elfinfo * list N :=
   match n with
   | O => ([], l)
   | S k =>
-      let '(nm, r1) := take_vec l in
-      match r1 with
-      | hid :: r2 =>
+      let '(nm, r0) := take_vec l in
+      match r0 with
+      | off :: hid :: r2 =>
           let '(id, r3) := take_vec r2 in
           match r3 with
           | hso :: r4 =>
               let '(so, r5) := take_vec r4 in
               let '(t, r6) := dec_tbl k r5 in
-              ({| ei_name := nm; ei_id := if n2b hid then Some id else None; ei_soname := if n2b hso then Some so else None |} :: t, r6)
+              ({| ei_name := nm; ei_off := off; ei_id := if n2b hid then Some id else None; ei_soname := if n2b hso then Some so else None |} :: t, r6)
           | [] => ([], l)
           end
-      | [] => ([], l)
+      | _ => ([], l)
       end
   end.
 Fixpoint dec_users (n : nat) (l : list N) : list usermap :=
